@@ -797,3 +797,74 @@ def rule_fl_collect(cx, rep, port):
     if fin and gw:
         dom = g.dominators()
         rep.decide(all(any(g.dominates(f, w_, dom) for f in fin) for w_ in gw), 'warnings after finish', gw[0].ast, 'the writer\'s warnings are read after writer.finish()', 'the writer\'s warnings are read before writer.finish() has run: warnings produced while flushing buffered records are lost')
+
+
+def rule_rs_nullderef(cx, rep, port='py'):
+    """contradiction rule (Engler et al.): an attribute that the constructor sets to None, that is filled in later and that some method
+    of the class tests against None before use ("may still be None") is not dereferenced by another method without such a test -
+    in the adapters these are the lazily created iterators / streams, and the unguarded use sits in clean-up code that runs exactly
+    when creating them failed"""
+    from .. import pathsem
+    p = cx.py
+    n = 0
+    for mod in ('rbql_csv', 'rbql_sqlite', 'rbql_pandas', 'rbql_engine'):
+        if mod not in p.modules:
+            continue
+        for cls in p.classes_in(mod):
+            ms = {m.name: m for m in cls.body if isinstance(m, ast.FunctionDef)}
+            init = ms.get('__init__')
+            if init is None:
+                continue
+            lazy = {dotted(a.targets[0]) for a in walk_no_nested(init) if isinstance(a, ast.Assign) and len(a.targets) == 1 and (dotted(a.targets[0]) or '').startswith('self.') and isinstance(a.value, ast.Constant) and a.value.value is None}
+            filled = {dotted(t) for m in ms.values() if m is not init for a in walk_no_nested(m) if isinstance(a, ast.Assign) for t in a.targets if dotted(t) in lazy and not (isinstance(a.value, ast.Constant) and a.value.value is None)}
+
+            def none_test(e, attr):
+                """+1: e says attr is not None, -1: e says it is None, 0: says nothing"""
+                if isinstance(e, ast.Compare) and len(e.ops) == 1 and dotted(e.left) == attr and isinstance(e.comparators[0], ast.Constant) and e.comparators[0].value is None:
+                    return 1 if isinstance(e.ops[0], (ast.IsNot, ast.NotEq)) else -1
+                if dotted(e) == attr:
+                    return 1
+                return 0
+            for attr in sorted(lazy & filled):
+                believers = [m for m in ms.values() if m is not init and any(none_test(x, attr) != 0 and isinstance(x, ast.Compare) for x in ast.walk(m))]
+                # methods that clean-up code calls (from a finally block) run whether or not the attribute was ever filled in
+                in_finally = {c.func.attr for f2 in p.funcs_in(mod) for t in ast.walk(f2) if isinstance(t, ast.Try) for fs in t.finalbody for c in ast.walk(fs) if isinstance(c, ast.Call) and isinstance(c.func, ast.Attribute)}
+                for m in ms.values():
+                    if m is init:
+                        continue
+                    if not believers and m.name not in in_finally:
+                        continue
+                    derefs = [x for x in ast.walk(m) if isinstance(x, ast.Attribute) and dotted(x.value) == attr and isinstance(x.ctx, ast.Load)]
+                    if not derefs:
+                        continue
+                    # the method that fills the attribute uses it right after the assignment
+                    if any(isinstance(a, ast.Assign) and any(dotted(t) == attr for t in a.targets) for a in walk_no_nested(m)):
+                        continue
+                    n += 1
+                    ps = pathsem.paths(m)
+                    key = '{}.{}.{}: {}'.format(mod, cls.name, m.name, attr)
+                    if ps is None:
+                        rep.undecided(key, m, 'method not summarisable as paths')
+                        continue
+                    bad = None
+                    for q in ps:
+                        known = False
+                        for t_, pol in pathsem.atoms(q.conds):
+                            k_ = none_test(t_, attr)
+                            if (k_ == 1 and pol) or (k_ == -1 and not pol):
+                                known = True
+                            if not known and any(isinstance(x, ast.Attribute) and dotted(x.value) == attr for x in ast.walk(t_)):
+                                bad = (q, t_)
+                                break
+                        if bad:
+                            break
+                        if not known:
+                            used = [e_ for e_ in list(q.calls) + [v for _, v in q.stores] + ([q.value] if q.value is not None else []) for x in ast.walk(e_) if isinstance(x, ast.Attribute) and dotted(x.value) == attr]
+                            if used:
+                                bad = (q, used[0])
+                                break
+                    if bad:
+                        rep.violated(key, derefs[0], '{}.{}() uses `{}` without having established that {} is set ({}): it is still None when creating it failed, and the AttributeError raised here replaces the real error and skips what follows'.format(cls.name, m.name, node_text(bad[1], 60), attr, '{}() tests it against None'.format(believers[0].name) if believers else 'the method is called from a finally block'))
+                    else:
+                        rep.holds(key, derefs[0], 'used only where {} is known to be set'.format(attr))
+    rep.require_count('lazily created attributes dereferenced', n, 1, (p.files['rbql_csv'], 0))
